@@ -33,7 +33,7 @@ LEVEL_TEXT = ('Deductive proof of the position arithmetic behind every report fo
     'the 1-based line (count of line breaks + 1) and column (offset - start of line + 1) of that offset; the JSON and XML '
     'reports store the 0-based line/column of the first and last flagged character computed from the same spec function '
     '(XML byte mode: the same line start), so the formats agree by construction; run_proofreader_options keeps text and map '
-    'of the concatenated parts in step and shifts every match offset by the length of the text before its part; the server '
+    'of the concatenated parts in step and shifts every match offset by exactly the length of the text submitted before its part (loop body contract: new offset == old offset + len(plain_tot) at that moment); the server '
     'answer applies the same map_match_position to every match.')
 LEVEL_NOTE = 'Proofreader behaviour, HTTP layer and regex of correct_mark_macroname assumed; excerpt wording not covered.'
 TECHNIQUE = 'contract-based deductive verification: one spec function for line/column, array-encoded texts, loop body contracts, z3'
